@@ -141,6 +141,9 @@ def enc_array(x, data=True):
         if fermi
         else [],
         "oddpos": enc_oddpos(x.oddpos) if fermi else [],
+        # harness-side only (ignored by the Lean decoder): how to rebuild the python object
+        "dtype": str(x.dtype) if x.blocks else "float64",
+        "static": bool(x.static_symmetry),
     }
     return out
 
@@ -303,6 +306,19 @@ def enc_val(x, data=True):
     if isinstance(x, np.ndarray) and x.ndim > 0:
         return {"blk": enc_block(x, data)}
     return {"scalar": enc_scalar(x) if data else 0}
+
+
+def dec_val(v):
+    """rebuild the python-side object of a protocol value (for replays)"""
+    if "arr" in v:
+        j = v["arr"]
+        return dec_array(j, dtype=j.get("dtype", "float64"), static=j.get("static", True))
+    if "vec" in v:
+        return dec_vec(v["vec"])
+    if "blk" in v:
+        return dec_block(v["blk"], "complex128" if any(isinstance(s, list) for s in v["blk"]["data"]) else "float64")
+    re, im = scalar_to_frac(v["scalar"])
+    return complex(float(re), float(im)) if im else float(re)
 
 
 EXC_KIND = [
